@@ -883,7 +883,45 @@ def main():
     write_if_changed("SrcTieDiag.v", "\n".join(diag) + "\n")
     write_if_changed("SrcParsers.v", "\n".join(lines) + "\n")
     write_if_changed("SrcTie.v", "\n".join(tie) + "\n")
-    rep = dict(translated={d["name"]: dict(calls=d["calls"], file=T.fns[d["name"]]["file"]) for d in done}, untranslatable=failed,
+    # source-level restatement of the property theorems: every `run f x` with a tied f becomes `src_f x`
+    tied = {d["name"]: (d.get("model") or MODEL_NAME.get(d["name"], d["name"])) for d in done
+            if expected.get(d["name"], "tied") == "tied" and d["name"] not in failed}
+    by_model = {}
+    for n, mname in tied.items(): by_model.setdefault(mname, n)
+    src_theorems = {}
+    skp = os.path.join(VERIF, "tools", "t12_src_skip.json")
+    src_skip = json.load(open(skp)) if os.path.exists(skp) else {}
+    for pf in sorted(glob.glob(os.path.join(VERIF, "coq", "Properties", "C[0-9][0-9].v"))):
+        pid = os.path.basename(pf)[:-2]
+        txt = open(pf).read()
+        imports = re.findall(r"^From TlsModel Require Import [^.]*\.", txt, re.M)
+        outl = ["(* GENERATED by tools/t12.py: the theorems of Properties/%s.v restated about the translation of the current source" % pid,
+                "   (gen/SrcParsers.v): `run f x` becomes `src_f x` for every function f tied by gen/SrcTie.v; each is obtained from",
+                "   the model-level theorem by rewriting with the tie lemmas. *)"] + imports + [
+                "From TlsModel Require Import SrcGlue ModelExtra SrcParsers SrcTie %s." % pid, "From Coq Require Import Setoid.", "Open Scope N_scope.", ""]
+        names = []
+        for m in re.finditer(r"^Theorem (\w+) :(.*?)\nProof\.", txt, re.M | re.S):
+            tname, stmt = m.group(1), m.group(2)
+            used = []
+            def sub1(mm):
+                f = mm.group(1)
+                if f in by_model: used.append(by_model[f]); return "src_%s " % by_model[f]
+                return mm.group(0)
+            def sub2(mm):
+                f = mm.group(1)
+                if f in by_model: used.append(by_model[f]); return "src_%s%s " % (by_model[f], mm.group(2))
+                return mm.group(0)
+            st2 = re.sub(r"\brun (\w+) ", sub1, stmt)
+            st2 = re.sub(r"\brun \((\w+)((?: +[\w']+)+)\) ", sub2, st2)
+            if not used or tname in src_skip.get(pid, []): continue
+            rw = "; ".join("try setoid_rewrite tie_%s" % u for u in sorted(set(used)))
+            outl.append("Theorem %s_src :%s\nProof. %s; exact %s. Qed.\n" % (tname, st2, rw, tname))
+            names.append(tname + "_src")
+        for n in names: outl.append("Print Assumptions %s." % n)
+        if names:
+            write_if_changed("%s_src.v" % pid, "\n".join(outl) + "\n")
+            src_theorems[pid] = names
+    rep = dict(src_theorems=src_theorems, translated={d["name"]: dict(calls=d["calls"], file=T.fns[d["name"]]["file"]) for d in done}, untranslatable=failed,
                file_errors=getattr(T, "file_errors", []))
     # deviations from the committed expectation
     dev = []
